@@ -3,7 +3,10 @@
 //
 // Case line (fields separated by one space):
 //   list <kind> <local> <max> <remotes> <opts> <filters> <world> <scripts>
-//     kind     coll|ctr|cr|grp|spec|user     which generated_*List is called
+//     kind     coll|ctr|cr|grp|spec|user     which generated_*List is called; "user@<id>" sets cluster.Login.LoginCluster
+//              to <id> (conn.go UserList then hands the request to chooseBackend(<id>) and caches the returned
+//              users of that cluster through local.UserBatchUpdate: logged as backend "<local>#upd", call
+//              "U=<sorted uuids> => P-|E0"; a script "<local>#upd=e0" makes that update fail)
 //     local    cluster id of the controller
 //     max      cluster.API.MaxItemsPerResponse
 //     remotes  ids in conn.remotes ("-" none); may contain the local id (a decoy that must never be used)
@@ -55,6 +58,9 @@ type verifC20Stub struct {
 	mtx      sync.Mutex
 	log      []string
 	overrun  chan string
+	// local backend only: UserBatchUpdate calls
+	updScript []string
+	updLog    []string
 }
 
 // far above any legitimate number of calls (at most one per requested uuid)
@@ -285,6 +291,26 @@ func (s *verifC20Stub) respond(ctx context.Context, opts arvados.ListOptions) (i
 	return items, nil
 }
 
+func (s *verifC20Stub) UserBatchUpdate(ctx context.Context, o arvados.UserBatchUpdateOptions) (arvados.UserList, error) {
+	s.mtx.Lock()
+	defer s.mtx.Unlock()
+	var us []string
+	for u := range o.Updates {
+		us = append(us, u)
+	}
+	sort.Strings(us)
+	fail := len(s.updScript) > len(s.updLog) && strings.HasPrefix(s.updScript[len(s.updLog)], "e")
+	resp := "P-"
+	if fail {
+		resp = "E0"
+	}
+	s.updLog = append(s.updLog, "U="+verifC20Join(us, ",")+" => "+resp)
+	if fail {
+		return arvados.UserList{}, errors.New("stub batch update error")
+	}
+	return arvados.UserList{}, nil
+}
+
 func verifC20Time(ts int64) time.Time { return time.Unix(1500000000+ts, 0).UTC() }
 
 func (s *verifC20Stub) CollectionList(ctx context.Context, o arvados.ListOptions) (r arvados.CollectionList, err error) {
@@ -378,6 +404,13 @@ func verifC20Case(line string, overrun chan string) (out string) {
 		return "bad-op"
 	}
 	kind, local := f[1], f[2]
+	login, hasLogin := "", false
+	if i := strings.Index(kind, "@"); i >= 0 {
+		kind, login, hasLogin = kind[:i], kind[i+1:], true
+		if kind != "user" {
+			return "bad-op"
+		}
+	}
 	max, err := strconv.Atoi(f[3])
 	if err != nil {
 		return "bad-op"
@@ -448,7 +481,10 @@ func verifC20Case(line string, overrun chan string) (out string) {
 	}
 	cluster := &arvados.Cluster{ClusterID: local}
 	cluster.API.MaxItemsPerResponse = max
+	cluster.Login.LoginCluster = login
+	cluster.SystemRootToken = "verifc20systemroottoken"
 	localStub := mkstub(local, local)
+	localStub.updScript = scripts[local+"#upd"]
 	stubs := []*verifC20Stub{localStub}
 	conn := &Conn{cluster: cluster, local: localStub, remotes: map[string]backend{}}
 	for _, id := range verifC20List(f[4], ",") {
@@ -511,7 +547,8 @@ func verifC20Case(line string, overrun chan string) (out string) {
 	case "user":
 		var r arvados.UserList
 		r, err = conn.UserList(ctx, opts)
-		if r.Items == nil && err == nil {
+		if r.Items == nil && err == nil && !hasLogin {
+			// (the LoginCluster detour hands the backend's answer on as it is, nil or not)
 			return "nil-items"
 		}
 		for _, it := range r.Items {
@@ -535,6 +572,9 @@ func verifC20Case(line string, overrun chan string) (out string) {
 	for _, st := range stubs {
 		if len(st.log) > 0 {
 			logs = append(logs, st.id+": "+strings.Join(st.log, " // "))
+		}
+		if len(st.updLog) > 0 {
+			logs = append(logs, st.id+"#upd: "+strings.Join(st.updLog, " // "))
 		}
 	}
 	return head + " | " + verifC20Join(logs, " | ")
